@@ -208,6 +208,9 @@ class C01(Prop):
         # receiver runs once): nothing of it may be lost on the way to the application
         for i in range(2 if tier == 'quick' else 8):
             out.append({'kind': 'huge', 'frag': 64, 'tcp': i % 2 == 1, 'size': rng.choice([1_000_000, 1_300_000]), 'side': rng.randint(0, 1), 'seed': rng.getrandbits(30)})
+        # last words: everything was written, then the sender closes - the FIN is there together with the last bytes
+        for i in range(12 if tier == 'quick' else 200):
+            out.append({'kind': 'huge', 'frag': rng.choice([None, 64]), 'tcp': True, 'size': rng.choice([1, 10, 100, 300, 5000]), 'side': rng.randint(0, 1), 'seed': rng.getrandbits(30), 'fin': True})
         # a reconnecting client: what the previous connection left half-received must not leak into the interactions of the next one
         for _ in range(80 if tier == 'quick' else 2000):
             out.append({'kind': 'reconnect', 'frag': 64, 'seed': rng.getrandbits(40), 'rounds': rng.randint(1, 3),
@@ -256,6 +259,9 @@ class C01(Prop):
         [client, server][side].fire_and_forget(small)
         await loop.settle()
         n = await lk.deliver_burst(side)
+        if case.get('fin') and case['tcp']:
+            # the sender closes right after its last write: the FIN reaches the receiver together with the last bytes
+            lk.readers[1 - side].feed_eof()
         await loop.settle()
         for _ in range(5):
             await lk.deliver_burst(side)
